@@ -23,12 +23,24 @@ enum Backend {
     Std,
 }
 
+/// Screening stage registered under identifier A: gives every individual the same provisional value.
+struct Screen<P>(std::marker::PhantomData<fn() -> P>);
+impl<P: Instrumented> evaluate::Evaluate for Screen<P> {
+    type Problem = P;
+    fn evaluate(&mut self, _problem: &P, _state: &mut State<P>, individuals: &mut [mahf::Individual<P>]) {
+        for i in individuals {
+            i.evaluate_with(|_| 1.0f64.try_into().unwrap());
+        }
+    }
+}
+
 fn setup<P: Instrumented>(state: &mut State<P>, parallel: bool) -> ExecResult<()> {
     if parallel {
         state.insert_evaluator(evaluate::Parallel::<P>::new());
     } else {
         state.insert_evaluator(evaluate::Sequential::<P>::new());
     }
+    state.insert_evaluator_as::<mahf::identifier::A>(Screen::<P>(std::marker::PhantomData));
     state.configure_log(|c| {
         c.with_common(EveryN::iterations(1))
             .with(ChangeOf::new(PartialEqChecker::new(), BestObjectiveValueLens::<P>::new()), BestObjectiveValueLens::<P>::entry())
@@ -63,6 +75,30 @@ fn run<P: Instrumented>(cfg: &Configuration<P>, problem: &P, seed: u64, backend:
         Ok(r) => r,
         Err(p) => Err(format!("panic: {p}")),
     }
+}
+
+/// The same run, but driven through `Configuration::run` on a child state opened over a prepared state (what a
+/// component embedding a sub-configuration does); the digest is taken inside, where everything is visible.
+fn run_nested<P: Instrumented>(cfg: &Configuration<P>, problem: &P, seed: u64) -> Result<(Value, bool), String> {
+    problem.instr().reset();
+    problem.instr().set_perturb(0);
+    mv::catch(|| {
+        let mut outer = State::<P>::new();
+        outer.insert(mahf::logging::Log::new());
+        outer.insert(mahf::state::common::Populations::<P>::new());
+        outer.insert(Random::new(seed));
+        setup(&mut outer, false).map_err(|e| format!("error: {e:#}"))?;
+        let mut out = None;
+        outer
+            .with_inner_state(|inner| {
+                cfg.run(problem, inner)?;
+                out = Some((run_digest(inner), inner.contains_at_top::<Random>()));
+                Ok(())
+            })
+            .map_err(|e| format!("error: {e:#}"))?;
+        Ok(out.expect("closure ran"))
+    })
+    .unwrap_or_else(|p| Err(format!("panic: {p}")))
 }
 
 fn first_diff(a: &Value, b: &Value, path: String) -> Option<String> {
@@ -178,6 +214,31 @@ impl<'r> Variants<'r> {
                 rep.violation(&format!("{}:user-generator:replaced", self.what), json!({"run": label, "detail": detail, "seed": seed, "generator_after_run": a["rng"]}));
             }
         }
+        // driven through Configuration::run on a child state: the generator the caller supplied (in the enclosing state)
+        // is the one that is used - same seed, same run, and nothing shadows it
+        {
+            let n1 = run_nested(cfg, problem, seed);
+            let n2 = run_nested(cfg, problem, seed);
+            rep.count("digest_comparisons", 2);
+            rep.count("runs_on_a_child_state", 2);
+            match (&n1, &n2, &base) {
+                (Ok((a, shadow_a)), Ok((b, _)), Ok(reference)) => {
+                    if let Some(d) = first_diff(a, b, String::new()) {
+                        rep.violation(&format!("{}:run-on-a-child-state:same-seed-runs-differ-in-{}", self.what, top_key(&d)), json!({"run": label, "detail": detail, "seed": seed, "first_difference": d}));
+                    } else if *shadow_a {
+                        rep.violation(&format!("{}:run-on-a-child-state:generator-of-the-caller-shadowed", self.what), json!({"run": label, "detail": detail, "seed": seed}));
+                    } else if a["stack"] != reference["stack"] || a["rng"] != reference["rng"] {
+                        rep.violation(&format!("{}:run-on-a-child-state:differs-from-the-run-on-the-root-state", self.what), json!({"run": label, "detail": detail, "seed": seed, "first_difference": first_diff(reference, a, String::new())}));
+                    }
+                }
+                (Err(x), Err(y), Err(_)) if x == y => {}
+                (a, b, c) => {
+                    if a.is_ok() != c.is_ok() || a.is_ok() != b.is_ok() {
+                        rep.violation(&format!("{}:run-on-a-child-state:fails-where-the-root-run-does-not-or-vice-versa", self.what), json!({"run": label, "detail": detail, "seed": seed, "child_state_run": a.as_ref().err(), "root_run": c.as_ref().err()}));
+                    }
+                }
+            }
+        }
         // different seeds give different runs (so that a constant digest cannot pass)
         if expect_seed_sensitive {
             let other = run(cfg, problem, seed ^ 0x5555, Backend::Default, false, None, 0);
@@ -272,6 +333,19 @@ fn random_api(rep: &Reporter) {
         let first_child = (&mut via_iter).into_iter().next().map(|mut c| c.next_u64());
         if f1 != f2 || f1 == [0u8; 24] || first_child != Some(a[0].0) {
             rep.violation("random:byte-stream-or-iterator-not-determined-by-seed", json!({"seed": s}));
+        }
+        // children reached through iterator adaptors are the children reached one by one
+        {
+            let one_by_one: Vec<u64> = Random::new(s).iter_children().take(9).map(|mut c| c.next_u64()).collect();
+            let skipped: Vec<u64> = Random::new(s).iter_children().skip(3).take(3).map(|mut c| c.next_u64()).collect();
+            let nth = Random::new(s).iter_children().nth(5).map(|mut c| c.next_u64());
+            let stepped: Vec<u64> = Random::new(s).iter_children().step_by(2).take(4).map(|mut c| c.next_u64()).collect();
+            let mut two_batches = Random::new(s);
+            let b1: Vec<u64> = two_batches.iter_children().take(4).map(|mut c| c.next_u64()).collect();
+            let b2: Vec<u64> = two_batches.iter_children().take(4).map(|mut c| c.next_u64()).collect();
+            if skipped != one_by_one[3..6] || nth != Some(one_by_one[5]) || stepped != [one_by_one[0], one_by_one[2], one_by_one[4], one_by_one[6]] || b1 != one_by_one[..4] || b2 != one_by_one[4..8] {
+                rep.violation("random:children-through-skip-nth-step_by-or-batches-differ-from-children-one-by-one", json!({"seed": s}));
+            }
         }
         if Random::testing().next_u64() != Random::new(0).next_u64() {
             rep.violation("random:testing-generator-not-seeded-with-zero", json!({}));
@@ -406,7 +480,7 @@ fn steps_equal(a: &[std::collections::BTreeMap<String, Value>], b: &[std::collec
 fn main() {
     let rep = Reporter::from_args("C08");
     rep.fold_aux();
-    rep.rule("for each (configuration, problem, seed): digest(sequential run) must equal digest(second run), digest(run of config.clone()), digest(parallel evaluator in rayon pools of the listed sizes with seeded latency perturbation of the objective), digest(run inside a pool), and a user-supplied generator (StdRng backend) must still be the one in the final state with identical runs under both evaluators; a different seed must change the run. Digest = whole population stack (exact solutions, objective bits), best, counters, full log, algorithm memories (velocities, pheromones, molecules, temperature, diversity, archive) and the generator's next output. Configurations: all 21 templates over the parameter catalogue, seeded random operator pipelines, and the four diversity measures in a loop on problems of 3-64 dimensions; for real-valued problems also the same configuration object after it was used on (or first used on) another problem instance with other domain bounds, and a clone of the used object. Random: small and special seeds pairwise. Plus: Random children/streams are functions of the seed; par_experiment run logs (decoded CBOR) equal the log of a sequential run with Random::new(run). distinct_nontrivial = distinct (configuration, seed) cells + Random seeds + experiment batches");
+    rep.rule("for each (configuration, problem, seed): digest(sequential run) must equal digest(second run), digest(run of config.clone()), digest(parallel evaluator in rayon pools of the listed sizes with seeded latency perturbation of the objective), digest(run inside a pool), and a user-supplied generator (StdRng backend) must still be the one in the final state with identical runs under both evaluators; a different seed must change the run. Digest = whole population stack (exact solutions, objective bits), best, counters, full log, algorithm memories (velocities, pheromones, molecules, temperature, diversity, archive) and the generator's next output. Configurations: all 21 templates over the parameter catalogue, seeded random operator pipelines, and the four diversity measures in a loop on problems of 3-64 dimensions; for real-valued problems also the same configuration object after it was used on (or first used on) another problem instance with other domain bounds, and a clone of the used object. Random: small and special seeds pairwise; children through skip / nth / step_by / consecutive batches equal the children drawn one by one. Also: every configuration driven through Configuration::run on a child state (twice, same seed; the caller's generator is used and not shadowed), and loops with a screening evaluation stage under identifier A before the real one. Plus: Random children/streams are functions of the seed; par_experiment run logs (decoded CBOR) equal the log of a sequential run with Random::new(run). distinct_nontrivial = distinct (configuration, seed) cells + Random seeds + experiment batches");
     rep.assume("schedule diversity is what pool sizes x latency nonces produced (see C06 evidence for measured completion orders); harness problems");
     let sizes: &[usize] = if rep.quick() { &[1, 4, 16] } else { &[1, 2, 4, 8, 16] };
     let pools: Vec<rayon::ThreadPool> = sizes.iter().map(|&n| rayon::ThreadPoolBuilder::new().num_threads(n).build().unwrap()).collect();
@@ -487,6 +561,28 @@ fn main() {
             let problem = Real::new(dim, -5.12, 5.12, RealFn::Rastrigin);
             v.check("diversity measures in a loop", json!({"dimension": dim, "population": pop}), &cfg, &problem, rng.below(1 << 40), true);
             rep.count("diversity_cells", 1);
+        }
+    }
+    // two evaluation stages in one loop: a screening stage under identifier A, then the real one; both evaluators must
+    // re-evaluate what the screening stage evaluated
+    {
+        use mahf::components::{boundary, initialization, mutation};
+        let v = Variants { rep: &rep, pools: &pools, nonces, what: "two-stage-evaluation" };
+        let mut rng = SplitMix64::new(rep.seed).fork(0xC08_E);
+        for _ in 0..rep.tier.pick(8usize, 120usize) {
+            let pop = 1 + rng.usize(9) as u32;
+            let cfg: Configuration<Real> = Configuration::builder()
+                .do_(initialization::RandomSpread::new(pop))
+                .evaluate_with::<mahf::identifier::A>()
+                .evaluate()
+                .update_best_individual()
+                .while_(mahf::conditions::LessThanN::iterations(3), |b| {
+                    b.do_(mutation::NormalMutation::new(0.3, 0.5)).do_(boundary::Saturation::new()).evaluate_with::<mahf::identifier::A>().evaluate().update_best_individual()
+                })
+                .build();
+            let inst = 1 + rng.usize(6);
+            v.check("screening stage (A) then evaluation", json!({"population": pop, "instance": templates::real_instance_desc(inst)}), &cfg, &templates::real_instance(inst), rng.below(1 << 40), true);
+            rep.count("two_stage_cells", 1);
         }
     }
     // degenerate shapes: empty populations reaching the evaluator / the operators
